@@ -115,3 +115,198 @@ Theorem C20_old_refuted :
   option_map (result 512) (replay 512 (first_fit 512) d11_trace) = Some (512, 0, 0, 0).
 Proof. exact old_refuted. Qed.
 Print Assumptions C20_old_refuted.
+
+(* ============================ C20 over the modelled real allocator ============================
+   The same loop (repair of D11) running on the sequential model of llfree-rs itself (Upper.v: `llfree_get`,
+   `llfree_put`, `llfree_stats`) instead of the abstract interval allocator: ReplayLLFree.v.
+
+   `lstep` / `lreplay g policy max_pfn u0 evs`: the loop from the allocator state u0; an event (`levent`) carries
+   (alloc, pfn, order) and the class / slot index of the request built from its core and flags; allocation
+   events call `llfree_get g policy u None rq` (unwrap: an Err ends the run = None), free events call
+   `llfree_put g policy u (F + (pfn - a)) rq`; the table bookkeeping is `tab_step` of Replay.v, unchanged.
+   Hypotheses: every geometry `wf_geom g`; every policy with `pol_refl_match`, `pol_demote_trans` (the built-in
+   ones: C20_llfree_builtin_policies); an initial state u0 with `UpperInv` (ghost off0), `frames = max_pfn < 2^64`
+   and nothing allocated (`o_alloc (abs g (low u0)) = 0`) - e.g. the state built by `llfree_new ... IFreeAll`
+   (C20_llfree_final_count_new); events `lev_ok`: `ev_ok` (orders 0..10, aligned, below max_pfn), order <= tree
+   order of g, class configured, slot index (if any) below the class's slot count.  Traces of any length; "the
+   trace fits in memory" = `lreplay ... = Some ls`.
+   `abs g (low u)` is the ownership state read off the allocator's metadata (Spec.v), `spec_put` frees exactly the
+   block, `exact_free` = frames - popcount of the allocated set. *)
+From LLF Require Import Bitfield Lower Spec Upper UpperInvDef UpperPrims UpperPutProofs Policies GlueHistory ReplayLLFree.
+
+(* Every free event (pfn, k) found inside a tracked allocation a |-> (F, K), at any reachable state: the loop
+   calls llfree_put(F + (pfn - a), k) - the traced part -, the allocator model returns Ok, the specification
+   enabled it, the ownership state changes by exactly spec_put: those 2^k frames (all allocated before) become
+   free and every other frame is unchanged; `stats().free_frames` grows by 2^k; the invariant holds afterwards;
+   the named part is no longer tracked and every other part j of the allocation is tracked as (F + j*2^k, k).
+   This includes parts of blocks of order >= the huge order (a part of order >= hord needs the covered huge
+   frames allocated whole; a part of order < hord splits its huge frame). *)
+Theorem C20_llfree_frees_traced_block :
+  forall g policy max_pfn, wf_geom g -> pol_refl_match policy -> pol_demote_trans policy ->
+  forall u0 off0, frames (low u0) = max_pfn -> max_pfn < W64 ->
+    UpperInv g policy {| us := u0; off := off0 |} -> o_alloc (abs g (low u0)) = 0 ->
+  forall pre ls le, Forall (lev_ok g max_pfn u0) pre -> lreplay g policy max_pfn u0 pre = Some ls ->
+    lev_ok g max_pfn u0 le -> e_alloc (le_ev le) = false ->
+    forall a F K, find_alloc max_pfn (look (l_tab ls)) (e_pfn (le_ev le)) (e_order (le_ev le)) = Some (Some a) ->
+      tget (l_tab ls) a = Some (F, K) ->
+      let e := le_ev le in let k := e_order e in let sz := 2 ^ N.of_nat k in let f := F + (e_pfn e - a) in
+      exists u' ls',
+        llfree_put g policy (l_u ls) f (le_req le) = (Ok tt, u') /\
+        lstep g policy max_pfn ls le = Some (ls', OPut f k true) /\ l_u ls' = u' /\
+        (k <= K)%nat /\ a <= e_pfn e /\ e_pfn e + sz <= a + 2 ^ N.of_nat K /\
+        spec_put_enabled g (abs g (low (l_u ls))) f k = true /\
+        abs g (low u') = spec_put g (abs g (low (l_u ls))) f k /\
+        (forall x, f <= x < f + sz -> N.testbit (o_alloc (abs g (low (l_u ls)))) x = true) /\
+        (forall x, N.testbit (o_alloc (abs g (low u'))) x =
+                   N.testbit (o_alloc (abs g (low (l_u ls)))) x && negb ((f <=? x) && (x <? f + sz))) /\
+        Lower.free_frames (llfree_stats g u') = Lower.free_frames (llfree_stats g (l_u ls)) + sz /\
+        UpperInv g policy {| us := u'; off := off0 |} /\
+        tget (l_tab ls') (e_pfn e) = None /\
+        (forall j, j < 2 ^ N.of_nat (K - k) -> a + j * sz <> e_pfn e ->
+                   tget (l_tab ls') (a + j * sz) = Some (F + j * sz, k)) /\
+        (forall q, (forall j, j < 2 ^ N.of_nat (K - k) -> q <> a + j * sz) -> tget (l_tab ls') q = tget (l_tab ls) q) /\
+        l_failed ls' = 0 /\ l_unknown ls' = l_unknown ls /\ l_reallocs ls' = l_reallocs ls.
+Proof. exact llfree_frees_traced_block. Qed.
+Print Assumptions C20_llfree_frees_traced_block.
+
+(* A free event never panics and never fails. *)
+Theorem C20_llfree_free_never_fails :
+  forall g policy max_pfn, wf_geom g -> pol_refl_match policy -> pol_demote_trans policy ->
+  forall u0 off0, frames (low u0) = max_pfn -> max_pfn < W64 ->
+    UpperInv g policy {| us := u0; off := off0 |} -> o_alloc (abs g (low u0)) = 0 ->
+  forall pre ls le, Forall (lev_ok g max_pfn u0) pre -> lreplay g policy max_pfn u0 pre = Some ls ->
+    lev_ok g max_pfn u0 le -> e_alloc (le_ev le) = false ->
+    exists ls' o, lstep g policy max_pfn ls le = Some (ls', o) /\ l_failed ls' = 0 /\
+      (o = OUnknown \/ exists f, o = OPut f (e_order (le_ev le)) true).
+Proof. exact llfree_free_never_fails. Qed.
+Print Assumptions C20_llfree_free_never_fails.
+
+(* A free event of an unknown block only increments free_unkown; the allocator is not called. *)
+Theorem C20_llfree_unknown_free :
+  forall g policy max_pfn ls le, e_alloc (le_ev le) = false ->
+    find_alloc max_pfn (look (l_tab ls)) (e_pfn (le_ev le)) (e_order (le_ev le)) = Some None ->
+    exists ls', lstep g policy max_pfn ls le = Some (ls', OUnknown) /\
+      l_u ls' = l_u ls /\ l_tab ls' = l_tab ls /\ l_orph ls' = l_orph ls /\
+      l_failed ls' = l_failed ls /\ l_unknown ls' = l_unknown ls + 1 /\ l_reallocs ls' = l_reallocs ls.
+Proof. exact llfree_unknown_free. Qed.
+Print Assumptions C20_llfree_unknown_free.
+
+(* At every reachable state: the allocator invariant holds, no free failed, the allocated set of the real model
+   is exactly the disjoint union of the tracked and the orphaned blocks, and `stats().free_frames` plus the held
+   frames is max_pfn. *)
+Theorem C20_llfree_reachable :
+  forall g policy max_pfn, wf_geom g -> pol_refl_match policy -> pol_demote_trans policy ->
+  forall u0 off0, frames (low u0) = max_pfn -> max_pfn < W64 ->
+    UpperInv g policy {| us := u0; off := off0 |} -> o_alloc (abs g (low u0)) = 0 ->
+  forall pre ls, Forall (lev_ok g max_pfn u0) pre -> lreplay g policy max_pfn u0 pre = Some ls ->
+    UpperInv g policy {| us := l_u ls; off := off0 |} /\ frames (low (l_u ls)) = max_pfn /\ l_failed ls = 0 /\
+    (forall x, N.testbit (o_alloc (abs g (low (l_u ls)))) x = true <->
+               exists b, In b (map snd (l_tab ls) ++ l_orph ls) /\ inb x b = true) /\
+    (forall x, (length (filter (inb x) (map snd (l_tab ls) ++ l_orph ls)) <= 1)%nat) /\
+    Lower.free_frames (llfree_stats g (l_u ls)) + (tsum (l_tab ls) + bsum (l_orph ls)) = max_pfn.
+Proof. exact llfree_reachable. Qed.
+Print Assumptions C20_llfree_reachable.
+
+(* At the end of any trace: `stats().free_frames` of the real allocator model (= the exact count `exact_free`) is
+   max_pfn minus what the trace holds - tracked plus orphaned blocks, functions of the trace alone (trace_spec)
+   -, no free failed, the counters agree. *)
+Theorem C20_llfree_final_count :
+  forall g policy max_pfn, wf_geom g -> pol_refl_match policy -> pol_demote_trans policy ->
+  forall u0 off0, frames (low u0) = max_pfn -> max_pfn < W64 ->
+    UpperInv g policy {| us := u0; off := off0 |} -> o_alloc (abs g (low u0)) = 0 ->
+  forall evs ls, Forall (lev_ok g max_pfn u0) evs -> lreplay g policy max_pfn u0 evs = Some ls ->
+    exists t, trace_spec max_pfn (map le_ev evs) = Some t /\
+      let tracked := tsum (s_tab t) in let orphaned := bsum (s_orph t) in
+      trace_held max_pfn (map le_ev evs) = Some (tracked + orphaned) /\
+      tracked + orphaned <= max_pfn /\
+      Lower.free_frames (llfree_stats g (l_u ls)) = max_pfn - (tracked + orphaned) /\
+      exact_free (abs g (low (l_u ls))) = max_pfn - (tracked + orphaned) /\
+      l_failed ls = 0 /\ l_unknown ls = s_unknown t /\ l_reallocs ls = s_reallocs t /\
+      tsum (l_tab ls) = tracked /\ bsum (l_orph ls) = orphaned /\
+      UpperInv g policy {| us := l_u ls; off := off0 |}.
+Proof. exact llfree_final_count. Qed.
+Print Assumptions C20_llfree_final_count.
+
+(* ... from the state built by `LLFree::new(max_pfn, Init::FreeAll, classing)` (replay.rs line 99): any frame count
+   below 2^64, any classing with ids < 8 and a configured default class, a local buffer without reservations *)
+Theorem C20_llfree_final_count_new :
+  forall g policy, wf_geom g -> pol_refl_match policy -> pol_demote_trans policy ->
+  forall max_pfn classing d lbuf tbuf sbuf,
+    max_pfn < W64 ->
+    Forall (fun s => s_pres s = false) sbuf ->
+    (forall c k, In (c, k) classing -> c < 8) ->
+    (exists k, In (d, k) classing) ->
+    exists u0, llfree_new g max_pfn IFreeAll classing d lbuf tbuf sbuf = Ok u0 /\
+      forall evs ls, Forall (lev_ok g max_pfn u0) evs -> lreplay g policy max_pfn u0 evs = Some ls ->
+        exists t, trace_spec max_pfn (map le_ev evs) = Some t /\
+          let tracked := tsum (s_tab t) in let orphaned := bsum (s_orph t) in
+          trace_held max_pfn (map le_ev evs) = Some (tracked + orphaned) /\
+          tracked + orphaned <= max_pfn /\
+          Lower.free_frames (llfree_stats g (l_u ls)) = max_pfn - (tracked + orphaned) /\
+          exact_free (abs g (low (l_u ls))) = max_pfn - (tracked + orphaned) /\
+          l_failed ls = 0 /\ l_unknown ls = s_unknown t /\ l_reallocs ls = s_reallocs t /\
+          tsum (l_tab ls) = tracked /\ bsum (l_orph ls) = orphaned /\
+          UpperInv g policy {| us := l_u ls; off := repeat 0 (length (trees u0)) |}.
+Proof. exact llfree_final_count_new. Qed.
+Print Assumptions C20_llfree_final_count_new.
+
+(* The link with the abstract loop above.  Every step of the loop over the real model is a step of the abstract
+   loop of Replay.v (`Replay.step ... true`) under an oracle satisfying choose_ok, between abstract states
+   (`absst ls A`: the table / orphans / counters of ls with the interval list A) that satisfy the invariant of
+   ReplayProofs.v and whose allocated sets are the real model's.  The oracle is chosen per step (`pick`: the block
+   llfree_get returned): a fixed function of the ownership state cannot name the real allocator's choice. *)
+Theorem C20_llfree_step_simulated :
+  forall g policy max_pfn, wf_geom g -> pol_refl_match policy -> pol_demote_trans policy ->
+  forall u0 off0, frames (low u0) = max_pfn -> max_pfn < W64 ->
+    UpperInv g policy {| us := u0; off := off0 |} -> o_alloc (abs g (low u0)) = 0 ->
+  forall pre ls le ls' o, Forall (lev_ok g max_pfn u0) pre -> lreplay g policy max_pfn u0 pre = Some ls ->
+    lev_ok g max_pfn u0 le -> lstep g policy max_pfn ls le = Some (ls', o) ->
+    exists A A' ch, choose_ok max_pfn ch /\
+      Replay.step max_pfn ch true (absst ls A) (le_ev le) = Some (absst ls' A', o) /\
+      ReplayProofs.Inv max_pfn (absst ls A) /\ ReplayProofs.Inv max_pfn (absst ls' A') /\
+      (forall x, allocd A x = N.testbit (o_alloc (abs g (low (l_u ls)))) x) /\
+      (forall x, allocd A' x = N.testbit (o_alloc (abs g (low (l_u ls')))) x).
+Proof. exact llfree_step_simulated. Qed.
+Print Assumptions C20_llfree_step_simulated.
+
+(* ... and whole runs: `run_with max_pfn chs s evs` is the abstract loop using the i-th oracle of chs for the
+   i-th event (`run_with (repeat ch n)` = `Replay.run ch`: C20_run_with_repeat) *)
+Theorem C20_llfree_run_simulated :
+  forall g policy max_pfn, wf_geom g -> pol_refl_match policy -> pol_demote_trans policy ->
+  forall u0 off0, frames (low u0) = max_pfn -> max_pfn < W64 ->
+    UpperInv g policy {| us := u0; off := off0 |} -> o_alloc (abs g (low u0)) = 0 ->
+  forall evs ls, Forall (lev_ok g max_pfn u0) evs -> lreplay g policy max_pfn u0 evs = Some ls ->
+    exists chs A, Forall (choose_ok max_pfn) chs /\ length chs = length evs /\
+      run_with max_pfn chs Replay.init (map le_ev evs) = Some (absst ls A) /\
+      ReplayProofs.Inv max_pfn (absst ls A) /\
+      (forall x, allocd A x = N.testbit (o_alloc (abs g (low (l_u ls)))) x) /\
+      Replay.free_frames max_pfn A = Lower.free_frames (llfree_stats g (l_u ls)).
+Proof. exact llfree_run_simulated. Qed.
+Print Assumptions C20_llfree_run_simulated.
+
+Theorem C20_run_with_repeat : forall max_pfn ch evs s,
+  run_with max_pfn (repeat ch (length evs)) s evs = Replay.run max_pfn ch true s evs.
+Proof. exact run_with_repeat. Qed.
+Print Assumptions C20_run_with_repeat.
+
+(* the hypotheses on the policy hold for the built-in policies (Simple, Movable, Zeroed, ZeroSlot) *)
+Theorem C20_llfree_builtin_policies :
+  forall p TFv, builtin_policy p TFv -> pol_refl_match p /\ pol_demote_trans p.
+Proof. exact builtin_policy_hyps. Qed.
+Print Assumptions C20_llfree_builtin_policies.
+
+(* Non-vacuity: geometry 7/1 (huge frame 128, tree 256 frames), 1024 frames, classes 0 and 1 with one slot each,
+   the Simple policy, from `llfree_new`.  The trace allocates a whole tree (order 8), frees its upper huge frame
+   (a part of order hord), then 64 frames inside the remaining huge frame (a part of order < hord); allocates an
+   order-0 block at pfn 0, re-allocates pfn 0 at order 2 (the first block is orphaned), frees its upper half;
+   the last free names an unknown block.  All puts succeed; 957 = 1024 - (64 + 2 tracked + 1 orphaned). *)
+Theorem C20_llfree_example :
+  wf_geom ex_g /\ pol_refl_match ex_pol /\ pol_demote_trans ex_pol /\
+  llfree_new ex_g 1024 IFreeAll [(0, 1); (1, 1)] 1 (free_all ex_g 1024) [] (repeat slot_none 2) = Ok ex_u0 /\
+  Forall (lev_ok ex_g 1024 ex_u0) ex_trace /\
+  lrun_log ex_g ex_pol 1024 (linit ex_u0) ex_trace =
+    Some [OAlloc 0 8; OPut 128 7 true; OPut 64 6 true; OAlloc 768 0; OAlloc 772 2; OPut 774 1 true; OUnknown] /\
+  option_map (lresult ex_g) (lreplay ex_g ex_pol 1024 ex_u0 ex_trace) = Some (957, 0, 1, 1) /\
+  trace_held 1024 (map le_ev ex_trace) = Some 67.
+Proof. exact llfree_replay_example. Qed.
+Print Assumptions C20_llfree_example.
